@@ -529,6 +529,7 @@ pub type QRes = Result<QOut, QErr>;
 // ---------------------------------------------------------------------------------------------
 
 pub struct Db {
+    abandoned: bool,
     db: Option<Arc<LocustDB>>,
     pub opts: DbOpts,
     pub path: Option<PathBuf>,
@@ -541,6 +542,7 @@ impl Db {
         let db = with_deadline("open", call_deadline(), move || LocustDB::new(&o))?;
         let instance = db.verif_inner().verif_instance();
         Ok(Db {
+            abandoned: false,
             db: Some(Arc::new(db)),
             opts: opts.clone(),
             path: path.map(|p| p.to_path_buf()),
@@ -593,12 +595,20 @@ impl Db {
         self.close_inner()
     }
 
+    /// Stops an instance that lost a thread to a known finding, without waiting for its flush thread.
+    pub fn abandon(mut self) {
+        self.abandoned = true;
+        let _ = self.close_inner();
+    }
+
     fn close_inner(&mut self) -> Call<()> {
         if let Some(db) = self.db.take() {
             let inner = db.verif_inner().clone();
             let instance = self.instance;
-            let on_disk = self.path.is_some();
+            let on_disk = self.path.is_some() && !self.abandoned;
             drop(db);
+            // an abandoned call thread may still hold a clone of the handle, so stop explicitly
+            inner.stop();
             inner.verif_wake_wal_thread();
             if on_disk {
                 let deadline = Instant::now() + Duration::from_secs(10);
